@@ -11,7 +11,10 @@ import (
 	"fmt"
 	"os"
 	"runtime"
+	"runtime/debug"
+	"sort"
 	"strconv"
+	"strings"
 	"sync"
 	"testing"
 	"time"
@@ -31,6 +34,7 @@ var (
 	loaded  bool
 	counts  = map[string]int{}
 	obs     []string
+	reached []string
 	tierVal = -1
 )
 
@@ -203,7 +207,12 @@ func Assert(b bool, label string) {
 	}
 }
 
-func Reach(label string) {}
+// Reach marks a point a check wants to see reached; natively the labels are recorded for conformance runs.
+func Reach(label string) {
+	mu.Lock()
+	reached = append(reached, label)
+	mu.Unlock()
+}
 
 // Yield is a scheduling point for the interpreter; natively it yields the processor.
 func Yield() { runtime.Gosched() }
@@ -245,14 +254,25 @@ func IsConcrete(v any) bool { return true }
 // Run executes a harness natively as a test. An assertion failure (or a panic) fails the test
 // with a line starting "VERIF-ASSERT"; a failed assumption skips it.
 func Run(t *testing.T, h func()) {
+	if p := os.Getenv("VERIF_CEX_LIST"); p != "" {
+		runList(t, h, p)
+		return
+	}
 	mu.Lock()
 	loaded = false
 	counts = map[string]int{}
 	obs = nil
 	mu.Unlock()
 	done := make(chan any, 1)
+	var stack []byte
 	go func() {
-		defer func() { done <- recover() }()
+		defer func() {
+			r := recover()
+			if r != nil {
+				stack = debug.Stack()
+			}
+			done <- r
+		}()
 		h()
 	}()
 	r := <-done
@@ -273,6 +293,58 @@ func Run(t *testing.T, h func()) {
 	case assertFailed:
 		t.Fatalf("VERIF-ASSERT %s", x.label)
 	default:
-		t.Fatalf("VERIF-ASSERT panic: %v", x)
+		t.Fatalf("VERIF-ASSERT panic: %v\n%s", x, stack)
+	}
+}
+
+// runList is the conformance mode: the harness is run once per input set of the list (completed sample paths of
+// the symbolic exploration, with the solver's model as inputs) and the outcome of each run is printed for the
+// engine to compare with what the interpreter saw on that path.
+func runList(t *testing.T, h func(), path string) {
+	b, err := os.ReadFile(path)
+	if err != nil {
+		t.Fatalf("vrt: cannot read VERIF_CEX_LIST: %v", err)
+	}
+	var list []cexFile
+	if err := json.Unmarshal(b, &list); err != nil {
+		t.Fatalf("vrt: bad VERIF_CEX_LIST: %v", err)
+	}
+	for i, item := range list {
+		mu.Lock()
+		cex = item
+		if cex.Inputs == nil {
+			cex.Inputs = map[string]any{}
+		}
+		loaded = true
+		counts = map[string]int{}
+		obs, reached = nil, nil
+		mu.Unlock()
+		done := make(chan any, 1)
+		go func() {
+			defer func() { done <- recover() }()
+			h()
+		}()
+		status := ""
+		select {
+		case r := <-done:
+			switch x := r.(type) {
+			case nil:
+				status = "OK"
+			case assumeFailed:
+				status = "ASSUME"
+			case assertFailed:
+				status = "ASSERT:" + x.label
+			default:
+				status = fmt.Sprintf("PANIC:%v", x)
+			}
+		case <-time.After(60 * time.Second):
+			fmt.Printf("VERIF-CONF %d TIMEOUT reach=\n", i)
+			return // the stuck run still owns the package state: stop here
+		}
+		mu.Lock()
+		rs := append([]string{}, reached...)
+		mu.Unlock()
+		sort.Strings(rs)
+		fmt.Printf("VERIF-CONF %d %s reach=%s\n", i, strings.ReplaceAll(status, "\n", " "), strings.Join(rs, ","))
 	}
 }
